@@ -555,6 +555,13 @@ Copy(s, p, deep) ==
           /\ Ok("Copy", [s |-> s, p |-> p, deep |-> deep, map |-> f, pmap |-> fp], New \cup {p})
     /\ UNCHANGED <<held, mode, dirty, saved, w2, w2pg>>
 
+\* a group cannot be copied into itself or into one of its own descendants (the copy would be part of what is being
+\* copied): the request is refused without side effects (groups/base.py copy)
+CopyIntoSelf(s, p) ==
+    /\ Do("CopyIntoSelf") /\ Writable /\ s \in Att \cap GS /\ p \in Sub(s) \cap GS /\ Sub(s) \cap dirty = {}
+    /\ Refused("CopyIntoSelf", [s |-> s, p |-> p], "ValueError")
+    /\ UNCHANGED <<mem, kids, pg, reg, fnode, flink, fpg, held, mode, Aux>>
+
 \* copy into ANOTHER workspace (workspace.py:288-292,310-339): every copied entity and property group keeps its
 \* identifier when that identifier is free in the target, otherwise it gets a fresh one; the source is untouched
 Copy2(s, deep) ==
@@ -747,6 +754,7 @@ Step ==
     \/ \E d \in DS, e \in DS : SetType(d, e)
     \/ \E d \in DS, y \in W2E : Copy2Data(d, y)
     \/ \E c \in GS \cup OS, x \in ES \cup PS : RemoveNotAChild(c, x)
+    \/ \E x \in GS, q \in GS : CopyIntoSelf(x, q)
 
 CmodeUpdate == cmode' = IF last'.act = "Open" /\ last'.args.fresh THEN last'.args.m ELSE cmode
 Next == Step /\ InordUpdate /\ CmodeUpdate
